@@ -40,14 +40,26 @@ var errBoom = errors.New("boom")
 
 // plainReader delivers data in chunks and optionally fails after failAt bytes; it has no Bytes method.
 type plainReader struct {
-	data    []byte
-	chunk   int
-	failAt  int // -1: never
-	eofWith bool
-	off     int
+	data     []byte
+	chunk    int
+	failAt   int // -1: never
+	eofWith  bool
+	off      int
+	scribble bool // uses the rest of p as scratch space (the io.Reader contract allows that)
 }
 
-func (r *plainReader) Read(p []byte) (int, error) {
+func (r *plainReader) Read(p []byte) (n int, err error) {
+	if r.scribble {
+		defer func() {
+			for i := n; i < len(p); i++ {
+				p[i] = 0xAA
+			}
+		}()
+	}
+	return r.read(p)
+}
+
+func (r *plainReader) read(p []byte) (int, error) {
 	if r.failAt >= 0 && r.off >= r.failAt {
 		return 0, errBoom
 	}
@@ -164,11 +176,11 @@ func build(t *rapid.T, data []byte) *subject {
 		}
 		s.data = data
 	case "reader-plain":
-		r := &plainReader{data: data, chunk: rapid.IntRange(1, 8).Draw(t, "chunk"), failAt: -1, eofWith: rapid.Bool().Draw(t, "eofWith")}
+		r := &plainReader{data: data, chunk: rapid.IntRange(1, 8).Draw(t, "chunk"), failAt: -1, eofWith: rapid.Bool().Draw(t, "eofWith"), scribble: rapid.Bool().Draw(t, "scribble")}
 		s.c = mkr(r)
 		s.data = data
 	case "reader-fail":
-		r := &plainReader{data: data, chunk: rapid.IntRange(1, 8).Draw(t, "chunk"), failAt: rapid.IntRange(0, len(data)).Draw(t, "failAt")}
+		r := &plainReader{data: data, chunk: rapid.IntRange(1, 8).Draw(t, "chunk"), failAt: rapid.IntRange(0, len(data)).Draw(t, "failAt"), scribble: rapid.Bool().Draw(t, "scribble")}
 		s.c = mkr(r)
 		s.data = nil
 		s.err = errBoom
